@@ -4,6 +4,7 @@ use serde_json::Value;
 pub mod c01;
 pub mod c05;
 pub mod c09;
+pub mod c11;
 pub mod common;
 
 pub fn run(id: &str, tier: Tier) -> i32 {
@@ -11,6 +12,7 @@ pub fn run(id: &str, tier: Tier) -> i32 {
         "C01" => c01::run(tier),
         "C05" => c05::run(tier),
         "C09" => c09::run(tier),
+        "C11" => c11::run(tier),
         _ => machinery(&format!("no check for property {id}")),
     }
 }
@@ -25,6 +27,7 @@ pub fn replay(id: &str, path: &str) -> i32 {
             "C01" => c01::replay(case),
             "C05" => c05::replay(case),
             "C09" => c09::replay(case),
+            "C11" => c11::replay(case),
             _ => machinery(&format!("no replay for property {id}")),
         }
     };
